@@ -1,7 +1,7 @@
 """Obligations for C10."""
 from oblib import ob
 
-BOUNDS = {"quick": "", "thorough": ""}
+BOUNDS = {'quick': 'Inside: ParseUint on every byte string of lengths 1, 2, 5, 19, 20, 21 against a decimal reference (exact value, overflow exactly at 2^64, syntax class); Token.Int/Uint on raw number tokens = optional \'-\' + 1/18/19/20/21 symbolic digits + tails "", .5, e2, .0; Token.Int/Uint on tokens built from every int64, every uint64 and every finite non-zero float64 (SMT floating-point theory); real Unmarshal of such literals into int8/16/32/64 and uint8/16/32/64 (exact bounds), through the string tag (8-bit), and a concrete float32 range table with symbolic sign and route. Outside: shortest float formatting and correct rounding (strconv, uninterpreted), AppendFloat layout.', 'thorough': 'As quick with ParseUint for every length 1..22, more digit counts and tails.'}
 ASSUMPTIONS = ["typed destinations: reflect is the engine's go/types-backed environment model (engine/reflect.go)", "Token.String (used by the accessors only to build error text) is cut: its result is an opaque string", "strconv.ParseFloat on symbolic digits is an uninterpreted function (value of non-integer literals not checked)"]
 
 
